@@ -25,6 +25,8 @@ struct St {
   int kill_victim = -1;
   int nprocs = 1;
   bool kill_seen = false;
+  bool concurrent_lifecycle = false;   // no serialisation of new/free/take_ownership: weaker, interleaving-proof oracles only
+  int life_inflight[MAXN] = {0}; uint64_t life_epoch[MAXN] = {0};
 };
 St *S;
 
@@ -135,6 +137,44 @@ void do_free(int hi) {
   token_give();
 }
 
+// ---- concurrent life-cycle mode: calls on one name overlap freely. Oracles that hold for every interleaving:
+//  * an object CREATED by a new(name, v, mode) call starts with exactly v;
+//  * new() may only fail while another life-cycle call on the same name overlaps it;
+//  * units are conserved per system object; nobody stays blocked in acquire while units are available.
+int do_new_c(int name, int value, PSemaphoreAccessMode mode) {
+  if (S->nh >= MAXHND) return -1;
+  bool overlapped = S->life_inflight[name] > 0;
+  S->life_inflight[name]++; uint64_t e0 = ++S->life_epoch[name];
+  PError *err = nullptr;
+  PSemaphore *h = HX_API("p_semaphore_new", name, false, p_semaphore_new(user_names[name], value, mode, &err));
+  S->life_inflight[name]--;
+  if (S->life_epoch[name] != e0) overlapped = true;
+  S->life_epoch[name]++;
+  if (!h) {
+    if (!overlapped) violate("new_failed", "concurrent_mode,not_overlapped", "p_semaphore_new(%s, %d) returned NULL (native %d) with no other life-cycle call on that name in flight", user_names[name], value, err ? p_error_get_native_code(err) : 0);
+    probe("sem.new_failed_under_overlap");
+    return -1;
+  }
+  int kobj = kern::last_sem_obj();
+  if (kern::last_sem_created() && kern::sem_init_value(kobj) != value)
+    violate("create_wrong_value", "concurrent", "new(%s, %d, %s) created a new system-wide counter starting at %d", user_names[name], value, mode == P_SEM_ACCESS_CREATE ? "CREATE" : "OPEN", kern::sem_init_value(kobj));
+  if (kern::last_sem_created()) probe("sem.concurrent_created");
+  int ei = -1;
+  for (size_t e = 0; e < S->epochs.size(); e++) if (S->epochs[e].kobj == kobj) ei = (int)e;
+  if (ei < 0) { Epoch e; e.name = name; e.kobj = kobj; e.init = kern::sem_init_value(kobj); S->epochs.push_back(e); ei = (int)S->epochs.size() - 1; }
+  S->latest[name] = ei;
+  Hnd &H = S->hs[S->nh];
+  H.h = h; H.name = name; H.epoch = ei; H.proc = cur()->proc; H.task = cur()->id; H.owner = false; H.live = true;
+  return S->nh++;
+}
+void do_free_c(int hi) {
+  Hnd &H = S->hs[hi];
+  H.live = false;
+  S->life_inflight[H.name]++; S->life_epoch[H.name]++;
+  HX_API_V("p_semaphore_free", H.name, false, p_semaphore_free(H.h));
+  S->life_inflight[H.name]--; S->life_epoch[H.name]++;
+}
+
 void do_acquire(int hi) {
   Hnd &H = S->hs[hi];
   Epoch &e = S->epochs[H.epoch];
@@ -174,20 +214,20 @@ void script(int nops) {
       int name = (int)gen(MAXN);
       int v = (int)gen(4);
       PSemaphoreAccessMode mode = gen(3) == 0 ? P_SEM_ACCESS_CREATE : P_SEM_ACCESS_OPEN;
-      if (mine.size() < 4) do_new(name, v, mode);
+      if (mine.size() < 4) { if (S->concurrent_lifecycle) do_new_c(name, v, mode); else do_new(name, v, mode); }
     } else {
       int hi = mine[gen((uint32_t)mine.size())];
       Hnd &H = S->hs[hi];
-      bool current = S->latest[H.name] == H.epoch;     // once a newer epoch of the name exists, older handles are only freed
+      bool current = S->concurrent_lifecycle || S->latest[H.name] == H.epoch;     // once a newer epoch of the name exists, older handles are only freed
       Epoch &e = S->epochs[H.epoch];
       if (r < 5 && current) {
         if (available(e) > 0 || gen(6) == 0) do_acquire(hi);   // mostly when units are there; sometimes a genuine wait
         else do_release(hi);
       } else if (r < 7 && current) do_release(hi);
       else if (r < 8) { HX_API_V("p_semaphore_take_ownership", H.name, false, p_semaphore_take_ownership(H.h)); H.owner = true; probe("sem.take_ownership"); }
-      else if (r < 9) do_free(hi);
+      else if (r < 9) { if (S->concurrent_lifecycle) do_free_c(hi); else do_free(hi); }
       else yield_point();
-      if (current && !S->stop) check_counter(H.epoch, "after_op");
+      if (current && !S->stop && !S->concurrent_lifecycle) check_counter(H.epoch, "after_op");
     }
     if (kern::proc_dead(S->kill_victim) && !S->stop) { S->stop = true; }
   }
@@ -238,7 +278,8 @@ void root() {
   int np = (int)gen_range(1, 3);
   S->nprocs = np;
   bool with_kill = np >= 2 && gen(3) == 0;
-  describe("procs=%d", np);
+  S->concurrent_lifecycle = !with_kill && gen(4) == 0;
+  describe("procs=%d%s", np, S->concurrent_lifecycle ? " concurrent-lifecycle" : "");
   if (with_kill) {
     S->kill_victim = 1 + (int)gen((uint32_t)np);
     int kth = 1 + (int)gen(tier ? 30 : 14); bool after = gen(2);
@@ -259,7 +300,7 @@ void root() {
     bool any = false;
     for (int h = 0; h < S->nh; h++) if (S->hs[h].live && S->hs[h].proc == p) any = true;
     if (!any) continue;
-    spawn(p, [p]() { for (int h = 0; h < S->nh; h++) if (S->hs[h].live && S->hs[h].proc == p) { S->hs[h].task = cur()->id; do_free(h); } });
+    spawn(p, [p]() { for (int h = 0; h < S->nh; h++) if (S->hs[h].live && S->hs[h].proc == p) { S->hs[h].task = cur()->id; if (S->concurrent_lifecycle) do_free_c(h); else do_free(h); } });
     wait_all_others();
   }
   // documented recovery / clean-up by a fresh process: open, take ownership, free, create again
